@@ -63,6 +63,9 @@ def poisons():
     is_struct = lambda it: it.kind == "struct"
     is_enum = lambda it: it.kind == "enum"
     cont("c-unknown", lambda it: [("unknown", "bogus")])
+    cont("c-unknown-x", lambda it: [("unknown", "x_custom")])
+    cont("c-unknown-case", lambda it: [("unknown", "Deny_unknown_fields")])
+    cont("c-unknown-serde", lambda it: [("unknown", 'serde(rename_all = "camelCase")')])
     cont("c-unknown-value", lambda it: [("unknown", "bogus = 1")])
     cont("c-rename_all-twice", lambda it: [("rename_all", "camelCase")] * (1 if it.get("rename_all") else 2))
     cont("c-rename_all-invalid", lambda it: [("rename_all", "snake_case")], lambda it: not it.get("rename_all"))
@@ -109,6 +112,8 @@ def poisons():
         P.append((cause, "variant", f))
     vhas = lambda v, n: any(a[0] == n for a in v.flat())
     var("v-unknown", lambda v: [("unknown", "default")])
+    var("v-unknown-x", lambda v: [("unknown", "x_note = \"n\"")])
+    var("v-unknown-case", lambda v: [("unknown", "Rename = \"r\"")])
     var("v-rename-twice", lambda v: [("rename", "zz")] * (1 if vhas(v, "rename") else 2))
     var("v-rename_all-twice", lambda v: [("rename_all", "camelCase")] * (1 if vhas(v, "rename_all") else 2))
     var("v-rename_all-invalid", lambda v: [("rename_all", "UPPER")], lambda v: not vhas(v, "rename_all"))
@@ -126,6 +131,9 @@ def poisons():
             return it
         P.append((cause, "field", f))
     fld("f-unknown", lambda x: [("unknown", "tag = \"x\"")])
+    fld("f-unknown-x", lambda x: [("unknown", "x_doc = \"d\"")])
+    fld("f-unknown-alias", lambda x: [("unknown", "alias = \"other\"")])
+    fld("f-unknown-case", lambda x: [("unknown", "Default")])
     fld("f-unknown-flag", lambda x: [("unknown", "deny_unknown_fields")])
     fld("f-rename-twice", lambda x: [("rename", "r2")] * (1 if x.has("rename") else 2))
     fld("f-default-twice", lambda x: [("default", None)] * (1 if x.has("default") else 2), lambda x: not x.skipped())
